@@ -53,10 +53,8 @@ pub open spec fn wf_atom(a: FilterAtom) -> bool decreases a {
 }
 pub open spec fn wf_test(t: Test) -> bool decreases t {
     match t {
-        // (restriction on multi-selector segments inside a filter query, segs_exact: KNOWN FINDING process_selectors.order — the Verus
-        //  claim is restricted to union-free queries, the bounded back end covers the rest)
-        Test::RelQuery(v) => wf_segments(v@) && segs_exact(v@, true),
-        Test::AbsQuery(q) => wf_segments(q.segments@) && segs_exact(q.segments@, true),
+        Test::RelQuery(v) => wf_segments(v@),
+        Test::AbsQuery(q) => wf_segments(q.segments@),
         Test::Function(tf) => wf_fn(*tf),
     }
 }
